@@ -1,6 +1,8 @@
+mod badgen;
 mod chainsim;
 mod checks;
 mod node;
+mod refmodel;
 mod rng;
 mod sim;
 mod world;
